@@ -121,14 +121,17 @@ def call_serial(impl, T, w_j, zeta):
         a, b = sr.stochastic_reconfiguration_np(T.up_j, w_j, zeta)
         return [np.asarray(a)], np.asarray(b)
     comm = L["config"].not_a_comm() if commkind == "nac" else vcomm.World(1).comm(0)
-    if name == "mpi":
-        a, b = sr.stochastic_reconfiguration_mpi(T.up_j, w_j, zeta, comm)
-        out = [np.asarray(a)], np.asarray(b)
-    elif name == "mpi_uhf":
-        a, b = sr.stochastic_reconfiguration_mpi_uhf([T.up_j, T.dn_j], w_j, zeta, comm)
-        out = [np.asarray(a[0]), np.asarray(a[1])], np.asarray(b)
-    else:
-        raise ValueError(impl)
+    try:
+        if name == "mpi":
+            a, b = sr.stochastic_reconfiguration_mpi(T.up_j, w_j, zeta, comm)
+            out = [np.asarray(a)], np.asarray(b)
+        elif name == "mpi_uhf":
+            a, b = sr.stochastic_reconfiguration_mpi_uhf([T.up_j, T.dn_j], w_j, zeta, comm)
+            out = [np.asarray(a[0]), np.asarray(a[1])], np.asarray(b)
+        else:
+            raise ValueError(impl)
+    except vcomm.Abort:  # the virtual world refused the call (mismatched buffers ...): a failure, not a crash
+        raise RuntimeError("virtual world: %r" % (comm.world.violation,)) from None
     if commkind == "v1" and comm.world.violation is not None:
         raise RuntimeError("virtual world: %r" % (comm.world.violation,))
     return out
@@ -205,7 +208,7 @@ def probe_serial(res, impl, T, A, w_j, zeta, expect_sel, case):
 
 def case_key(v):
     c = v["case"]
-    order = {"nac-ops": 0, "comb": 1, "mean": 2, "wrap": 3, "mpi": 4, "driver": 5}
+    order = {"nac-ops": 0, "comb": 1, "mean": 2, "hist": 3, "wrap": 3, "mpi": 4, "driver": 5}
     L = c.get("letters")
     n = len(L["__a__"]) if isinstance(L, dict) else (len(L) if L is not None else 0)
     return (order.get(c.get("part"), 9), c.get("R", 1), n, c.get("rank", 0))
@@ -582,6 +585,16 @@ def wrap_words(seed, N):
     return [[big, frac, one, neg, frac, zero][:N] + [one] * max(0, N - 6), ([frac, one, neg, big, one, frac] * 2)[:N]]
 
 
+def rogue_words(seed, N):
+    """Weight words with entries far outside what propagate() itself can produce (its weights are capped at 100):
+    one or two entries >> 100, entries << 1, and both at once.  The property quantifies over every weight vector."""
+    one, zero, frac, big, neg, tiny, huge = letters(seed)
+    hi1, hi2, lo = 250.0 + 10 * (seed % 3), 1.0e4, 1.0e-6
+    base = [[hi1, frac, one, neg], [one, hi2, hi1, frac], [lo, one, hi1, lo], [huge, tiny, hi2, big],
+            [lo, 3 * lo, lo, 2 * lo], [-hi1, zero, one, frac]]
+    return [(b + [one, frac, neg, one])[:N] for b in base]
+
+
 def check_wrapper_call(res, sig, case, out, pd_in, key, T, A, restricted, guard=True):
     """Oracle for one wrapper call: key advanced once, offset = uniform(split(key)[1]), comb as the serial one."""
     jax = lib()["jax"]
@@ -598,6 +611,15 @@ def check_wrapper_call(res, sig, case, out, pd_in, key, T, A, restricted, guard=
     tags, fails, detail = judge(blocks, np.asarray(out["weights"]), T, A, sel)
     for f in fails:
         res.violation(sig + ":" + ("offset-is-not-uniform(split(key)[1])" if f == "differs-from-serial-comb" else f), case, dict(detail, zeta=z))
+    # agreement, by value, with the NumPy kernel run on the same population at the same offset
+    sr_ = lib()["sr"]
+    for ib, (blk, src) in enumerate(zip(blocks, (T.up_j, T.dn_j))):
+        kw, kwt = sr_.stochastic_reconfiguration_np(src, pd_in["weights"], z)
+        if not (np.asarray(kw).shape == blk.shape and np.array_equal(np.asarray(kw), blk)):
+            res.violation(sig + ":differs-from-NumPy-kernel-at-same-offset", case, dict(block=ib, zeta=z, wrapper=blk, kernel=np.asarray(kw)))
+        elif ib == 0 and not np.allclose(np.asarray(kwt), np.asarray(out["weights"]), rtol=1e-12, atol=0):
+            res.violation(sig + ":weights-differ-from-NumPy-kernel-at-same-offset", case,
+                          dict(zeta=z, wrapper=np.asarray(out["weights"]), kernel=np.asarray(kwt)))
     for k in ("overlaps", "e_estimate"):
         if not np.array_equal(np.asarray(out[k]), np.asarray(pd_in[k])):
             res.violation(sig + ":unrelated-entry-modified", case, dict(entry=k))
@@ -620,13 +642,15 @@ def job_wrap(cfg):
         for N in cfg["sizes"]:
             prop = make_prop(name, N)
             T = Tagged(N, seed)
-            for iw, w in enumerate(wrap_words(seed, N)):
+            base_words = wrap_words(seed, N)
+            for iw, w in enumerate(base_words + rogue_words(seed, N)):
+                rogue = iw >= len(base_words)
                 A = combmc.Analysis(w, ties=False)
-                for ik in range(cfg["nkeys"]):
+                for ik in range(cfg["nkeys_rogue"] if rogue else cfg["nkeys"]):
                     ks = 1000 * seed + 17 * ik + iw
                     key = jax.random.PRNGKey(ks)
                     for which in ("local", "global/nac", "global/v1"):
-                        if which != "local" and ik >= cfg["nkeys_global"]:
+                        if which != "local" and ik >= (cfg["nkeys_rogue_global"] if rogue else cfg["nkeys_global"]):
                             continue
                         case = dict(part="wrap", cls=name, N=N, letters=w, key=ks, which=which, seed=seed)
                         sig = "propagation.%s.stochastic_reconfiguration_%s" % (
@@ -644,15 +668,18 @@ def job_wrap(cfg):
                         res.add(states=1, transitions=2, evaluations=2, traces=2)
                         res.nontrivial(("wrap", name, N, iw, ks, which))
                         res.guard("wrapper_calls")
+                        if rogue:
+                            res.guard("wrapper_calls_with_weights_far_outside_[1e-3,100]")
     # the global wrapper on R = 2 rank threads, keys as the driver makes them (PRNGKey(seed + rank)), all schedules
     for name in ("propagator_restricted", "propagator_unrestricted"):
         restricted = is_restricted(name)
         R, n = 2, 2
         T = Tagged(R * n, seed)
         prop = make_prop(name, n)
-        for iw, w in enumerate(wrap_words(seed, R * n)[: cfg["nvec_r2"]]):
+        r2_words = wrap_words(seed, R * n)[: cfg["nvec_r2"]] + rogue_words(seed, R * n)[: cfg["nvec_r2"]]
+        for iw, w in enumerate(r2_words):
             A = combmc.Analysis(w, ties=False)
-            for ik in range(cfg["nkeys_r2"]):
+            for ik in range(cfg["nkeys_r2"] if iw < cfg["nvec_r2"] else 1):
                 ks = 1000 * seed + 5 * ik + iw
                 case = dict(part="wrap", cls=name, N=R * n, R=R, letters=w, key=ks, which="global/threads", seed=seed)
                 sig = "propagation.%s.stochastic_reconfiguration_global" % name
@@ -743,8 +770,12 @@ def call_wrapper(prop, which, pd, restricted):
         out2 = prop.stochastic_reconfiguration_local(fresh(out))
         return out, out2
     mk = (lambda: L["config"].not_a_comm()) if which.endswith("nac") else (lambda: vcomm.World(1).comm(0))
-    out = prop.stochastic_reconfiguration_global(fresh(pd), mk())
-    out2 = prop.stochastic_reconfiguration_global(fresh(out), mk())
+    c1, c2 = mk(), mk()
+    try:
+        out = prop.stochastic_reconfiguration_global(fresh(pd), c1)
+        out2 = prop.stochastic_reconfiguration_global(fresh(out), c2)
+    except vcomm.Abort:
+        raise RuntimeError("virtual world: %r" % ([getattr(getattr(c, "world", None), "violation", None) for c in (c1, c2)],)) from None
     return out, out2
 
 
@@ -879,6 +910,209 @@ def replay_wrap(case):
                                       key_out=np.asarray(out["key"]), weights_out=np.asarray(out["weights"]))
 
 
+# ----------------------------------------------------------------------------- part: hist (call sequences)
+# The result of a call must not depend on which calls preceded it in the same process / on the same
+# communicator.  Operation alphabet = a menu of populations; every word of length 2 (3 thorough) over it is
+# run call after call in ONE freshly started interpreter (so the complete history of the process is the
+# recorded word list), every kernel applicable to the population is called, and every output is compared
+# BY VALUE (walker matrices, not only tags) with input[serial comb selection] and W/N.
+HIST_MENU = {  # letter: (container, dtype, N, (norb, nocc_up)) -- shapes used nowhere else in the check
+    "a": ("rhf", "real", 4, (4, 2)),
+    "b": ("rhf", "complex", 4, (4, 2)),
+    "c": ("rhf", "complex", 2, (4, 2)),
+    "d": ("rhf", "real", 4, (5, 1)),
+    "e": ("uhf", "complex", 4, (4, 2)),
+    "f": ("uhf", "real", 4, (4, 2)),
+}
+
+
+def hist_pop(letter, seed):
+    """One menu population: generic (not tagged-integer) walker matrices, so stale or truncated data shows by value."""
+    cont, dt, N, (norb, nup) = HIST_MENU[letter]
+    one, zero, frac, big, neg, tiny, huge = letters(seed)
+    wts = {"a": [big, frac, zero, one], "b": [frac, neg, one, big], "c": [big, one], "d": [one, zero, big, frac],
+           "e": [neg, big, frac, one], "f": [frac, one, big, zero]}[letter]
+    rng = np.random.default_rng(900 + 7 * seed + ord(letter))  # picks generic matrices only
+    t = np.arange(1, N + 1, dtype=np.float64)[:, None, None]
+
+    def block(ncol, sign):
+        g = rng.uniform(0.1, 0.9, (norb, ncol))
+        h = rng.uniform(0.1, 0.9, (norb, ncol))
+        return (sign * t * g[None] + 1j * t * h[None]).astype(np.complex128) if dt == "complex" else sign * t * g[None]
+
+    blocks = [block(nup, 1.0)] + ([block(max(1, nup - 1), -1.0)] if cont == "uhf" else [])
+    return dict(letter=letter, container=cont, N=N, blocks=blocks, weights=[float(x) for x in wts])
+
+
+def hist_words(tier):
+    L = 3 if tier == "thorough" else 2
+    out = []
+    for n in range(1, L + 1):
+        out += ["".join(w) for w in itertools.product(sorted(HIST_MENU), repeat=n)]
+    return out
+
+
+def hist_compare(out_blocks, out_w, P, sel):
+    """By-value comparison with the serial comb; returns a failure class or None, and detail."""
+    W = float(np.sum(np.abs(P["weights"])))
+    for ib, (o, src) in enumerate(zip(out_blocks, P["blocks"])):
+        o = np.asarray(o)
+        want = src[sel]
+        if o.shape != want.shape or not np.array_equal(o, want):
+            return "walkers-differ-by-value-from-input[serial-comb-selection]", dict(block=ib, got=o, expected=want)
+    ow = np.asarray(out_w)
+    if len(out_blocks) != len(P["blocks"]) or ow.shape != (P["N"],) or not np.all(np.abs(ow - W / P["N"]) <= 1e-12 * W):
+        return "weights-differ-from-W/N", dict(got=ow, expected=W / P["N"])
+    return None, {}
+
+
+def hist_child(spec):
+    """Runs in a freshly started interpreter: the words of spec, in order, call after call."""
+    import warnings
+
+    warnings.simplefilter("ignore")
+    L = lib()
+    jnp, sr, cfgm = L["jnp"], L["sr"], L["config"]
+    seed = spec["seed"]
+    pops = {k: hist_pop(k, seed) for k in HIST_MENU}
+    ana = {k: combmc.Analysis(P["weights"], ties=False) for k, P in pops.items()}
+    jpop = {k: ([jnp.asarray(b) for b in P["blocks"]], jnp.asarray(np.asarray(P["weights"]))) for k, P in pops.items()}
+    fails, ncalls, nafter = [], 0, 0
+
+    def zeta_for(k, pos):
+        ivs = [I for I in ana[k].intervals if I["probes"]]
+        I = ivs[(pos + ord(k)) % len(ivs)]
+        return I["probes"][1], I["sel"]
+
+    def record(wi, word, pos, kernel, lane, cls, detail):
+        if len(fails) < 40:
+            fails.append(dict(wi=wi, word=word, pos=pos, kernel=kernel, lane=lane, cls=cls, detail=core_enc(detail)))
+
+    for wi, word in enumerate(spec["words"]):
+        nac, v1 = cfgm.not_a_comm(), vcomm.World(1).comm(0)  # one communicator object for the whole word
+        for pos, k in enumerate(word):
+            P, (jb, jw) = pops[k], jpop[k]
+            z, sel = zeta_for(k, pos)
+            if pos and any(HIST_MENU[q][1] != HIST_MENU[k][1] and HIST_MENU[q][2:] == HIST_MENU[k][2:] for q in word[:pos]):
+                nafter += 1
+            if P["container"] == "rhf":
+                calls = [("jit", "-", lambda: sr.stochastic_reconfiguration(jb[0], jw, z)),
+                         ("np", "-", lambda: sr.stochastic_reconfiguration_np(jb[0], jw, z)),
+                         ("mpi", "nac", lambda: sr.stochastic_reconfiguration_mpi(jb[0], jw, z, nac)),
+                         ("mpi", "v1", lambda: sr.stochastic_reconfiguration_mpi(jb[0], jw, z, v1))]
+            else:
+                calls = [("jit_uhf", "-", lambda: sr.stochastic_reconfiguration_uhf(list(jb), jw, z)),
+                         ("mpi_uhf", "nac", lambda: sr.stochastic_reconfiguration_mpi_uhf(list(jb), jw, z, nac)),
+                         ("mpi_uhf", "v1", lambda: sr.stochastic_reconfiguration_mpi_uhf(list(jb), jw, z, v1))]
+            for kernel, lane, fn in calls:
+                ncalls += 1
+                try:
+                    a, b = fn()
+                    ob = [np.asarray(x) for x in a] if isinstance(a, (list, tuple)) else [np.asarray(a)]
+                    cls, detail = hist_compare(ob, np.asarray(b), P, sel)
+                    if lane == "v1" and v1.world.violation is not None:
+                        cls, detail = v1.world.violation["kind"], v1.world.violation
+                except vcomm.Abort:  # the virtual world refused the call (e.g. send/receive dtype mismatch)
+                    cls, detail = (v1.world.violation or {}).get("kind", "aborted"), dict(v1.world.violation or {})
+                    v1 = vcomm.World(1).comm(0)
+                except Exception as e:  # noqa: BLE001
+                    cls, detail = _exc_class(e), dict(error=str(e)[:300])
+                if cls:
+                    record(wi, word, pos, kernel, lane, cls, detail)
+        # the same word on R = 2 rank threads sharing one virtual communicator (canonical schedule)
+        R = 2
+        plan = [(k,) + zeta_for(k, pos) for pos, k in enumerate(word)]
+
+        def body(r, comm):
+            outs = []
+            for k, z, _ in plan:
+                jb, jw = jpop[k]
+                n = pops[k]["N"] // R
+                sl = slice(r * n, (r + 1) * n)
+                zr = decoys(z, R)[r]
+                if pops[k]["container"] == "rhf":
+                    a, b = sr.stochastic_reconfiguration_mpi(jb[0][sl], jw[sl], zr, comm)
+                    outs.append([np.asarray(a), np.asarray(b)])
+                else:
+                    a, b = sr.stochastic_reconfiguration_mpi_uhf([x[sl] for x in jb], jw[sl], zr, comm)
+                    outs.append([np.asarray(a[0]), np.asarray(a[1]), np.asarray(b)])
+            return outs
+
+        ex = schedmc.run_default(R, body, vcomm.SEND_MODES[wi % 2])
+        for pos, (k, z, sel) in enumerate(plan):
+            kernel = "mpi" if pops[k]["container"] == "rhf" else "mpi_uhf"
+            ncalls += 1
+            if ex.status != "complete":
+                record(wi, word, pos, kernel, "threads2", ex.violation["kind"], dict(ex.violation, trace=ex.trace[-8:]))
+                break
+            try:
+                blocks, wts = concat([res_r[pos] for res_r in ex.results])
+                cls, detail = hist_compare(blocks, wts, pops[k], sel)
+            except Exception as e:  # noqa: BLE001
+                cls, detail = "rank-outputs-malformed", dict(error=str(e)[:200])
+            if cls:
+                record(wi, word, pos, kernel, "threads2", cls, detail)
+    return dict(calls=ncalls, words=len(spec["words"]), after_other_dtype=nafter, fails=fails)
+
+
+def core_enc(x):
+    from mc.core import enc
+
+    return enc(x)
+
+
+def hist_spawn(seed, words):
+    """Start a fresh interpreter, run the words there, return its report."""
+    import json
+    import os
+    import subprocess
+    import sys
+
+    p = subprocess.run([sys.executable, "-m", "mc.checks.c07", "hist-child"], input=json.dumps(dict(seed=seed, words=words)),
+                       capture_output=True, text=True, env=dict(os.environ), timeout=3600)
+    lines = [l for l in p.stdout.splitlines() if l.startswith("HIST-RESULT ")]
+    if p.returncode != 0 or not lines:
+        raise HarnessError("history child failed (rc=%s): %s" % (p.returncode, (p.stderr or p.stdout)[-1500:]))
+    return json.loads(lines[-1][len("HIST-RESULT "):])
+
+
+def hist_sig(f):
+    return "%s:call-sequence:%s" % (FN[f["kernel"]], f["cls"])
+
+
+def job_hist(cfg):
+    res = Result()
+    seed, words = cfg["seed"], cfg["words"]
+    rep = hist_spawn(seed, words)
+    res.add(states=rep["words"], transitions=rep["calls"], evaluations=rep["calls"], traces=rep["calls"] + 1)
+    res.guard("history_words_run_in_one_fresh_process", rep["words"])
+    res.guard("history_calls_compared", rep["calls"])
+    res.guard("history_calls_after_a_population_of_other_dtype_same_shape", rep["after_other_dtype"])
+    res.nontrivial([("hist", w) for w in words if len(set(w)) > 1])
+    res.sample(dict(part="hist", menu={k: list(v[:3]) + [list(v[3])] for k, v in HIST_MENU.items()}, words=words[:12], calls=rep["calls"]))
+    seen = set()
+    for f in rep["fails"]:
+        sig = hist_sig(f)
+        if sig in seen:
+            continue
+        seen.add(sig)
+        # minimise: does the word alone (fresh process) already fail?  else keep the whole process history up to it
+        alone = hist_spawn(seed, [f["word"]])
+        same = [g for g in alone["fails"] if hist_sig(g) == sig]
+        hist = [f["word"]] if same else words[: f["wi"] + 1]
+        res.violation(sig, dict(part="hist", seed=seed, words=hist, kernel=f["kernel"], cls=f["cls"], letters=list(f["word"])),
+                      dict(word=f["word"], position=f["pos"], lane=f["lane"], menu=HIST_MENU[f["word"][f["pos"]]][:3],
+                           preceded_by=[HIST_MENU[q][:3] for q in f["word"][: f["pos"]]], process_history=hist, detail=f["detail"]))
+    return res
+
+
+def replay_hist(case):
+    words = [str(w) for w in case["words"]]
+    rep = hist_spawn(int(case["seed"]), words)
+    hits = [f for f in rep["fails"] if f["wi"] == len(words) - 1 and f["kernel"] == case["kernel"] and f["cls"] == case["cls"]]
+    return bool(hits), dict(words=words, failures=[dict(word=f["word"], pos=f["pos"], kernel=f["kernel"], lane=f["lane"], cls=f["cls"]) for f in hits][:6])
+
+
 # ----------------------------------------------------------------------------- run / replay
 def comb_jobs(tier, seed):
     jobs = []
@@ -960,6 +1194,8 @@ def job_priority(j):
         return (0 if j["N"] <= 3 else 4 + j["N"], j["N"], j["first"])
     if part == "wrap":
         return (1, 0, [])
+    if part == "hist":
+        return (1, 1, [])
     if part == "sched":
         return (1 if j["R"] == 2 else 3, j["R"] * j["n"], [])
     if part == "mpi":
@@ -995,10 +1231,18 @@ def run(ctx):
     jobs = sched_jobs(tier, seed) + comb_jobs(tier, seed) + mpi_jobs(tier, seed)
     jobs.append(dict(part="wrap", seed=seed, sizes=[4] if tier == "quick" else [4, 7],
                      nkeys=12 if tier == "quick" else 48, nkeys_global=4 if tier == "quick" else 16,
+                     nkeys_rogue=3 if tier == "quick" else 12, nkeys_rogue_global=2 if tier == "quick" else 6,
                      nvec_r2=1 if tier == "quick" else 2, nkeys_r2=2 if tier == "quick" else 6))
+    jobs.append(dict(part="hist", seed=seed, words=hist_words(tier)))
     if tier == "thorough":
         jobs += driver_jobs(seed)
     jobs.sort(key=job_priority)
+    import os
+
+    only = [x for x in os.environ.get("VERIF_C07_PARTS", "").split(",") if x]  # developer aid: run some parts only
+    if only:
+        jobs = [j for j in jobs if j["part"] in only]
+        ctx.cap("partial run (VERIF_C07_PARTS=%s): not the registered check" % ",".join(only))
     ctx.pmap(job, jobs, workers=min(ctx.workers, WORKERS))
     ctx.violations.sort(key=case_key)
     # the sequence of collectives (kinds, roots, buffer shapes) must not depend on the data: that is what lets the
@@ -1012,6 +1256,8 @@ def run(ctx):
         if len(ks) > 1:
             ctx.cap("%s: the sequence of collectives depends on the data (%d different sequences observed); schedules were "
                     "explored on representative inputs only" % (g, len(ks)))
+    if only:
+        return
     ctx.require_guard("comb_events_that_duplicated_a_walker", "robust_exact_ties_probed", "vectors_with_zero_weight_walkers",
                       "vectors_with_negative_weights", "vectors_with_magnitudes_spread_over_1e15",
                       "multi_rank_comb_events_moving_a_walker_to_another_rank", "runs_where_a_decoy_offset_would_change_the_comb",
@@ -1019,6 +1265,8 @@ def run(ctx):
                       "data_independent_collective_sequences",
                       "distinct_arrival_orders_R3", "free_running_cross_checks", "wrapper_calls",
                       "wrapper_calls_where_any_other_subkey_would_change_the_comb", "wrapper_schedules_completed_R2",
+                      "wrapper_calls_with_weights_far_outside_[1e-3,100]", "history_calls_compared",
+                      "history_calls_after_a_population_of_other_dtype_same_shape",
                       "not_a_comm_operations_compared", "explorer_selftest_planted_deadlock_found",
                       "explorer_selftest_planted_mismatch_found", "explorer_selftest_planted_buffer_found",
                       "explorer_selftest_planted_race_outcomes")
@@ -1209,10 +1457,23 @@ def replay(case):
         return replay_wrap(case)
     if part == "driver":
         return replay_driver(case)
+    if part == "hist":
+        return replay_hist(case)
     if part == "nac-ops":
         same, a, b, viol = nac_case(case["op"], tuple(int(x) for x in np.asarray(case["shape"]).tolist()), case["dtype"])
         return (not same) or viol is not None, dict(not_a_comm=a, world=b, violation=viol)
     raise ValueError(part)
 
 
-JOBS.update(comb=job_comb, mpi=job_mpi, sched=job_sched, wrap=job_wrap, driver=job_driver)
+JOBS.update(comb=job_comb, mpi=job_mpi, sched=job_sched, wrap=job_wrap, driver=job_driver, hist=job_hist)
+
+
+if __name__ == "__main__":
+    import json
+    import sys
+
+    if len(sys.argv) == 2 and sys.argv[1] == "hist-child":
+        # imported as __main__: make the package module resolve to the same objects
+        from mc.checks import c07 as _self
+
+        print("HIST-RESULT " + json.dumps(_self.hist_child(json.loads(sys.stdin.read()))))
